@@ -29,6 +29,10 @@ import (
 //verif:stub (*github.com/cloudwego/netpoll.TCPAddr).String verifDialAddrString
 //verif:stub github.com/cloudwego/netpoll.sockaddrToAddr verifDialSockaddrToAddr
 //verif:stub github.com/cloudwego/netpoll.selfConnect verifDialSelfConnect
+//verif:stub net.SplitHostPort verifDialSplitHostPort
+//verif:stub (*net.Resolver).LookupPort verifDialLookupPort
+//verif:stub (*net.Resolver).LookupIPAddr verifDialLookupIPAddr
+//verif:stub (net.IP).To4 verifDialTo4
 
 type verifDialMon struct {
 	open      [16]int // 0 free 1 open
@@ -40,6 +44,10 @@ type verifDialMon struct {
 	ctx       *verifDialCtx
 	fired     bool
 	events    int
+	selfConnects int
+	// what the kernel last said about the connection attempt on a descriptor:
+	// 1 established (connect 0/EISCONN, SO_ERROR 0 + peer name, SO_ERROR EISCONN), 2 failed
+	verdict [16]int
 }
 
 var verifD *verifDialMon
@@ -88,19 +96,49 @@ func verifDialSockopts(s, f, t int, v6 bool) error    { return nil }
 func verifDialSockaddr(a *TCPAddr, family int) (syscall.Sockaddr, error) { return nil, nil }
 func verifDialAddrString(a *TCPAddr) string           { return "1.2.3.4:80" }
 func verifDialSockaddrToAddr(sa syscall.Sockaddr) net.Addr { return verifAddr{} }
-func verifDialSelfConnect(conn *netFD, err error) bool { return false }
+// the kernel picked source port == destination port: at most once per dial, only on success
+func verifDialSelfConnect(conn *netFD, err error) bool {
+	// (bound: only an attempt that connected at once is re-tried, so that the second attempt
+	// can range over everything)
+	if err != nil || verifD.selfConnects >= 1 || verifD.ctlAdd != 0 || verifD.events != 0 {
+		return false
+	}
+	if verifStubBool("self.connect") {
+		verifD.selfConnects++
+		return true
+	}
+	return false
+}
+
+func verifDialTo4(ip net.IP) net.IP {
+	if len(ip) == 4 {
+		return ip
+	}
+	return nil
+}
+
+func verifDialSplitHostPort(hostport string) (string, string, error) { return "1.2.3.4", "80", nil }
+func verifDialLookupPort(r *net.Resolver, ctx context.Context, network, service string) (int, error) {
+	return 80, nil
+}
+func verifDialLookupIPAddr(r *net.Resolver, ctx context.Context, host string) ([]net.IPAddr, error) {
+	return []net.IPAddr{{IP: net.IP{1, 2, 3, 4}}}, nil
+}
 
 func verifDialConnect(fd int, sa syscall.Sockaddr) error {
 	switch verifPick("connect.result", 0, 4) {
 	case 0:
+		verifD.verdict[fd] = 1
 		return nil
 	case 1:
 		return syscall.EINPROGRESS
 	case 2:
+		verifD.verdict[fd] = 1
 		return syscall.EISCONN
 	case 3:
 		return syscall.EINTR
 	}
+	verifD.verdict[fd] = 2
 	return syscall.ECONNREFUSED
 }
 
@@ -109,10 +147,13 @@ func verifDialGetsockoptInt(fd, level, opt int) (int, error) {
 	verifAssume(verifD.events <= 2) // bound: SO_ERROR is asked at most twice per dial
 	switch verifPick("so_error", 0, 3) {
 	case 0:
+		verifD.verdict[fd] = 3 // no error pending: established iff the peer name can be read
 		return 0, nil
 	case 1:
+		verifD.verdict[fd] = 2
 		return int(syscall.ECONNREFUSED), nil
 	case 2:
+		verifD.verdict[fd] = 1
 		return int(syscall.EISCONN), nil
 	}
 	return int(syscall.EINPROGRESS), nil
@@ -121,6 +162,9 @@ func verifDialGetsockoptInt(fd, level, opt int) (int, error) {
 func verifDialGetpeername(fd int) (syscall.Sockaddr, error) {
 	if verifStubBool("getpeername.fails") {
 		return nil, syscall.ENOTCONN
+	}
+	if verifD.verdict[fd] == 3 {
+		verifD.verdict[fd] = 1
 	}
 	return nil, nil
 }
@@ -212,6 +256,7 @@ func verifHarness_C14_dialtcp() {
 		return
 	}
 	verifDialCensus("C14/successful-dial", conn.fd)
+	verifAssert(verifD.verdict[conn.fd] == 1, "C14/success-although-the-kernel-did-not-report-the-connection-established")
 	verifAssert(verifD.registered[conn.fd] == 1, "C14/connection-not-registered-readable")
 	verifAssert(conn.IsActive(), "C14/connection-not-active")
 	verifAssert(atomic.LoadInt32(&conn.operator.state) == 1, "C14/connection-operator-not-in-use")
@@ -225,4 +270,33 @@ func verifDialIsTimeoutErr(err error) bool {
 		return false
 	}
 	return op.Err == errIOTimeout
+}
+
+// The same dial through the dialer front end (DialConnection / DialTimeout path): address
+// resolution is stubbed to one IPv4 address; the context may expire at any kernel event,
+// including after the connection was established.
+//
+//verif:bounds as dialtcp, through dialer.dialTCP with one resolved address
+//verif:loop 40
+//verif:replay interp
+//verif:blockok
+func verifHarness_C14_dialer() {
+	verifK = &verifKMon{}
+	verifD = &verifDialMon{next: 3}
+	runner_RunTask_set()
+	pollmanager = newManager(1)
+	ctx := &verifDialCtx{done: make(chan struct{})}
+	verifD.ctx = ctx
+	d := &dialer{}
+	conn, err := d.dialTCP(ctx, "tcp", "1.2.3.4:80")
+	verifAssert((conn == nil) != (err == nil), "C14/connection-and-error-both-or-neither")
+	if err != nil {
+		verifDialCensus("C14/failed-dial", -1)
+		verifReach("failed")
+		return
+	}
+	verifDialCensus("C14/successful-dial", conn.fd)
+	verifAssert(verifD.verdict[conn.fd] == 1, "C14/success-although-the-kernel-did-not-report-the-connection-established")
+	verifAssert(conn.IsActive(), "C14/connection-not-active")
+	verifReach("connected")
 }
